@@ -9,6 +9,7 @@ import (
 	"encoding/binary"
 	"errors"
 	"io"
+	"sync"
 	"time"
 
 	"github.com/docker/docker/api/types"
@@ -86,6 +87,7 @@ type Fake struct {
 	// Yield, when set, is called at every call entry and return (scheduling point).
 	Yield func(label string)
 
+	mu        sync.Mutex // guards the records below when the harness runs free (race pass)
 	ListCalls int
 	Calls     []LogCall
 	Opened    []int // per container
@@ -113,7 +115,9 @@ func (f *Fake) yield(label string) {
 // ContainerList implements client.APIClient.
 func (f *Fake) ContainerList(_ context.Context, _ apicontainer.ListOptions) ([]types.Container, error) {
 	f.yield("list")
+	f.mu.Lock()
 	f.ListCalls++
+	f.mu.Unlock()
 	if f.ListErr != nil {
 		return nil, f.ListErr
 	}
@@ -140,8 +144,10 @@ func (f *Fake) ContainerLogs(_ context.Context, id string, opts apicontainer.Log
 		}
 	}
 	f.yield("logs-enter:" + id)
+	f.mu.Lock()
 	f.Calls = append(f.Calls, LogCall{ID: id, Options: opts})
 	f.OpenOrder = append(f.OpenOrder, idx)
+	f.mu.Unlock()
 	if idx < 0 {
 		f.yield("logs-return:" + id)
 		return nil, errors.New("verif: no such container " + id)
@@ -151,7 +157,9 @@ func (f *Fake) ContainerLogs(_ context.Context, id string, opts apicontainer.Log
 		f.yield("logs-return:" + id)
 		return nil, c.OpenErr
 	}
+	f.mu.Lock()
 	f.Opened[idx]++
+	f.mu.Unlock()
 	rd := &reader{f: f, idx: idx, data: c.Log}
 	f.yield("logs-return:" + id)
 	return rd, nil
@@ -184,7 +192,9 @@ func (r *reader) Read(p []byte) (int, error) {
 	if n > 0 {
 		copy(p, r.data[r.pos:r.pos+n])
 		r.pos += n
+		r.f.mu.Lock()
 		r.f.ReadBytes[r.idx] += n
+		r.f.mu.Unlock()
 	}
 	if err != nil {
 		return n, err
@@ -199,6 +209,8 @@ func (r *reader) Close() error {
 	if !r.closed {
 		r.closed = true
 	}
+	r.f.mu.Lock()
 	r.f.Closed[r.idx]++
+	r.f.mu.Unlock()
 	return nil
 }
